@@ -15,6 +15,18 @@ package handshake
 // when the previous read keys have to be retained (3*PTO after the first packet of the
 // current phase was received). With `monitor` every genuine packet is also compared
 // bit-by-bit with the packet ref5 builds from the key generation the model expects.
+//
+// Adversary without keys (on-path / off-path attacker): at ANY point of a history it may
+// hand a receiver a packet that cannot be authentic - a modified copy of a packet in flight
+// (adv-tamper) or a made-up packet with chosen header fields (adv-inject; key phase bit of
+// the receiver's current or next phase, packet number below or far above everything sent).
+// Such a packet must be rejected, and because the reference model does not change on it,
+// every later genuine packet is judged exactly as if it had never arrived: a rejected
+// packet that moved the key-phase cursor, armed the key-drop timer, rolled keys or disturbed
+// packet number decoding shows up as a genuine packet that is not opened (or a key phase
+// that differs from the model's). These operations are not terminal, so they occur as the
+// first packet of a key phase, right after a locally initiated update, before a peer's
+// update, around ticks of the drop timer, ...
 
 import (
 	"bytes"
@@ -44,6 +56,17 @@ type c05KUConfig struct {
 	// extraDepth is added to the thorough tier's depth bound (10)
 	extraDepth int
 }
+
+// packet numbers of made-up packets: below every genuine packet / far above every genuine packet
+// (still inside the decoding window of a 4-byte packet number)
+var c05KUInjectPNs = [...]int64{0, 1 << 30}
+
+var c05KUInjectPNNames = [...]string{"low", "high"}
+
+// kinds of modification of a packet in flight
+const c05KUTamperKinds = 2
+
+var c05KUTamperNames = [...]string{"keyphase-bit", "tag-bit"}
 
 const (
 	c05KUWindow  = 3
@@ -164,7 +187,9 @@ func (in *c05KUInst) Ops() []explore.Op {
 		}
 	}
 	for e := 0; e < 2; e++ {
-		if d := in.end[e].oldDeadline; d != 0 && !in.now.After(d) {
+		// time may pass whenever an endpoint holds previous read keys (whether or not the model
+		// thinks their drop timer is running); expired deadlines are clamped in Key()
+		if in.end[e].oldExists {
 			ops = append(ops, explore.Op{N: "tick"})
 			break
 		}
@@ -184,8 +209,21 @@ func (in *c05KUInst) Ops() []explore.Op {
 		if r.phase > 0 && r.sentInPhase == 0 {
 			ops = append(ops, explore.Op{N: "adv-premature", A: e})
 		}
-		if len(in.flight[e]) > 0 {
-			ops = append(ops, explore.Op{N: "adv-flipbit", A: e})
+	}
+	// adversary without keys, never terminal: modified copies of packets in flight ...
+	for e := 0; e < 2; e++ {
+		for i := range in.flight[e] {
+			for kind := 0; kind < c05KUTamperKinds; kind++ {
+				ops = append(ops, explore.Op{N: "adv-tamper", A: e, B: i, C: kind})
+			}
+		}
+	}
+	// ... and made-up packets (C: 0 = key phase bit of the receiver's current phase, 1 = of its next phase; D: packet number class)
+	for e := 0; e < 2; e++ {
+		for kp := 0; kp < 2; kp++ {
+			for pc := range c05KUInjectPNs {
+				ops = append(ops, explore.Op{N: "adv-inject", A: e, B: 0, C: kp, D: pc})
+			}
 		}
 	}
 	return ops
@@ -398,6 +436,20 @@ func (in *c05KUInst) deliverGenuine(p *c05KUPkt, replay bool) *explore.Fail {
 	return nil
 }
 
+// checkRejected hands a packet that cannot be authentic to receiver r. It must not be opened; the
+// reference model is left untouched, so everything that follows is judged as if it never arrived.
+func (in *c05KUInst) checkRejected(r int, raw []byte, key, what string) *explore.Fail {
+	res := in.receive(r, raw)
+	in.outcome += " " + c05ErrClass(res.err)
+	if res.err == nil {
+		return explore.Failf(key+":accepted", "%s was opened to %x instead of being rejected", what, res.dec)
+	}
+	if res.err != ErrDecryptionFailed && res.err != ErrKeysDropped {
+		return explore.Failf(key+":bad-error:"+c05ErrClass(res.err), "%s: %v (a packet that fails authentication is dropped, allowed are only ErrDecryptionFailed / ErrKeysDropped)", what, res.err)
+	}
+	return nil
+}
+
 func (in *c05KUInst) Apply(op explore.Op) *explore.Fail {
 	in.outcome = op.N
 	var fl *explore.Fail
@@ -444,25 +496,40 @@ func (in *c05KUInst) Apply(op explore.Op) *explore.Fail {
 			fl = explore.Failf("premature-keyupdate-bad-error:"+c05ErrClass(res.err), "premature key update answered with %v", res.err)
 		}
 		in.dead = true
-	case "adv-flipbit":
-		// on-path attacker flips the key phase bit of a genuine packet in flight (header protection
-		// is removed and re-applied with the mask computed by the reference)
-		p := in.flight[op.A][0]
+	case "adv-tamper":
+		// on-path attacker: a modified copy of a genuine packet in flight reaches the receiver (the
+		// genuine packet stays in flight). kind 0: key phase bit flipped (header protection is removed
+		// and re-applied with the mask computed by the reference); kind 1: last bit of the AEAD tag
+		// flipped (outside the header protection sample, so the header fields are the genuine ones).
+		p := in.flight[op.A][op.B]
 		r := 1 - op.A
 		raw := append([]byte(nil), p.raw...)
-		pnOff := 1 + c05KUCIDLen
-		mask := in.sh.gen[op.A][0].HeaderMask(raw[pnOff+4 : pnOff+4+16])
-		raw[0] ^= mask[0] & 0x1f
-		raw[0] ^= 0x04
-		raw[0] ^= mask[0] & 0x1f
-		res := in.receive(r, raw)
-		in.outcome += " " + c05ErrClass(res.err)
-		if res.err == nil {
-			fl = explore.Failf("tampered-keyphase-bit-accepted", "packet pn=%d with a flipped key phase bit was opened to %x", p.pn, res.dec)
-		} else if res.err != ErrDecryptionFailed && res.err != ErrKeysDropped {
-			fl = explore.Failf("tampered-keyphase-bit-bad-error:"+c05ErrClass(res.err), "packet pn=%d with a flipped key phase bit: %v", p.pn, res.err)
+		switch op.C {
+		case 0:
+			pnOff := 1 + c05KUCIDLen
+			mask := in.sh.gen[op.A][0].HeaderMask(raw[pnOff+4 : pnOff+4+16])
+			raw[0] ^= mask[0] & 0x1f
+			raw[0] ^= 0x04
+			raw[0] ^= mask[0] & 0x1f
+		default:
+			raw[len(raw)-1] ^= 0x01
 		}
-		in.dead = true
+		fl = in.checkRejected(r, raw, "tampered-packet:"+c05KUTamperNames[op.C],
+			fmt.Sprintf("copy of packet pn=%d (phase %d) from endpoint %d with a flipped %s at receiver in phase %d", p.pn, p.phase, op.A, c05KUTamperNames[op.C], in.end[r].phase))
+	case "adv-inject":
+		// attacker without keys: a made-up packet whose (unprotected) header carries the key phase bit
+		// of the receiver's current (C=0) or next (C=1) phase and a chosen packet number; the payload is
+		// sealed with keys of a generation the receiver can never hold, i.e. it cannot be authentic
+		r := 1 - op.A
+		m := in.end[r]
+		pn := c05KUInjectPNs[op.D]
+		hdr, err := wire.AppendShortHeader(nil, in.sh.cid[op.A], protocol.PacketNumber(pn), protocol.PacketNumberLen4, c05Bit(m.phase+op.C))
+		explore.Must(err == nil, "AppendShortHeader: %v", err)
+		raw, err := ref5.Protect(hdr, c05KUPlain(op.A, m.phase+op.C, pn, -1), uint64(pn), in.sh.gen[op.A][c05KUMaxGen-1])
+		explore.Must(err == nil, "ref5.Protect: %v", err)
+		kpName := [...]string{"current", "next"}[op.C]
+		fl = in.checkRejected(r, raw, fmt.Sprintf("injected-packet:kp=%s:pn=%s", kpName, c05KUInjectPNNames[op.D]),
+			fmt.Sprintf("made-up packet (key phase bit of the receiver's %s phase, pn=%d) at receiver %d in phase %d", kpName, pn, r, m.phase))
 	default:
 		explore.Must(false, "unknown op %v", op)
 	}
@@ -489,8 +556,25 @@ func c05KUSkip(typ, field string) bool {
 		"headerDecrypter", "headerEncrypter", "rttStats", "qlogger", "logger", "nonceBuf":
 		// key material is a function of keyPhase (dumped); prevRcvAEAD's presence is added by hand
 		return true
+	case "prevRcvAEADExpiry":
+		// added by hand, clamped once expired (the harness clock is monotone and the code only asks rcvTime.After(expiry))
+		return true
+	case "invalidPacketCount":
+		// only compared with the AEAD limit (>= 2^36), out of reach within the depth bound: not part of the state
+		return true
 	}
 	return false
+}
+
+// c05KURelTime: 0 = not set, -1 = expired, otherwise 1 + time left.
+func c05KURelTime(t, now monotime.Time) int64 {
+	switch {
+	case t == 0:
+		return 0
+	case now.After(t):
+		return -1
+	}
+	return 1 + int64(t) - int64(now)
 }
 
 func (in *c05KUInst) Key() string {
@@ -499,11 +583,8 @@ func (in *c05KUInst) Key() string {
 	for e := 0; e < 2; e++ {
 		m := in.end[e]
 		sb.WriteString(canon.Dump(m.a, opt))
-		fmt.Fprintf(&sb, "|prev=%v|", m.a.prevRcvAEAD != nil)
-		dl := int64(0)
-		if m.oldDeadline != 0 {
-			dl = int64(m.oldDeadline) - int64(in.now)
-		}
+		fmt.Fprintf(&sb, "|prev=%v|exp=%d|", m.a.prevRcvAEAD != nil, c05KURelTime(m.a.prevRcvAEADExpiry, in.now))
+		dl := c05KURelTime(m.oldDeadline, in.now)
 		fmt.Fprintf(&sb, "M{%d %v %d %d %d %v %d %d %v %d %v}", m.phase, m.confirmed, m.nextPN, m.firstSentInPhase, m.sentInPhase, m.ackedInPhase, m.largestAcked, m.highestRcvd, m.rcvdInPhase, dl, m.oldExists)
 		sb.WriteString("F[")
 		for _, p := range in.flight[e] {
@@ -537,7 +618,7 @@ func c05KeyUpdatePart(name string, cfg c05KUConfig) explore.Part {
 			New:              func() explore.Instance { return c05KUNew(sh) },
 			MaxDepth:         depth,
 			PanicIsViolation: true,
-			Rule: fmt.Sprintf("BFS over two real updatableAEADs (%s, %s, FirstKeyUpdateInterval=%d, key update interval=%d, ref5 wire monitor=%v); alphabet: confirm(e), send(e) [KeyPhase+Seal+EncryptHeader, carries an ACK of everything received], deliver(e,i) of any of the <=%d packets in flight, drop(e), tick (3*PTO), keyphase(e) [KeyPhase() without a packet], replay(e, first|latest delivered), adversary: adv-premature(e) [next-phase packet while the receiver has sent nothing in its phase], adv-flipbit(e) [key phase bit of a packet in flight flipped]; state = canon(both AEADs) + phase ledger + packets in flight",
+			Rule: fmt.Sprintf("BFS over two real updatableAEADs (%s, %s, FirstKeyUpdateInterval=%d, key update interval=%d, ref5 wire monitor=%v); alphabet: confirm(e), send(e) [KeyPhase+Seal+EncryptHeader, carries an ACK of everything received], deliver(e,i) of any of the <=%d packets in flight, drop(e), tick (3*PTO), keyphase(e) [KeyPhase() without a packet], replay(e, first|latest delivered), adversary with keys (terminal): adv-premature(e) [next-phase packet while the receiver has sent nothing in its phase]; adversary without keys (never terminal, enabled in every state, the model ignores it and keeps judging all later genuine packets): adv-tamper(e,i,kind) [copy of any packet in flight with the key phase bit / the last tag bit flipped, the original stays in flight], adv-inject(e,kp,pn) [made-up packet, key phase bit of the receiver's current|next phase, pn 0 | 2^30, sealed with a key generation the receiver never holds]; tick is enabled whenever an endpoint holds previous read keys; state = canon(both AEADs, without the invalid-packet counter) + phase ledger + packets in flight",
 				c05VName(cfg.version), c05SuiteName(cfg.suite), cfg.first, cfg.interval, cfg.monitor, c05KUWindow),
 		}
 	}
